@@ -68,7 +68,7 @@ def make_run_values(W, shape):
     from typing import Callable
 
     from ovld import Ovld
-    from ovld.dependent import EndsWith, StartsWith
+    from ovld.dependent import EndsWith, HasKey, StartsWith
 
     def factory(t):
         def g(x: t) -> t:         # one def statement, several function objects with different annotations
@@ -104,11 +104,15 @@ def make_run_values(W, shape):
             LOG.append((4,))
             return 4
 
+        def m6(d: HasKey["a"]):
+            LOG.append((6,))
+            return 6
+
         def m5(s: (StartsWith["a"] | StartsWith["b"]) & EndsWith["z"]):      # value-dependent leaves inside nested combinators
             LOG.append((5,))
             return 5
         ov = Ovld()
-        for fn, p in ((m0, 0), (m1, 0), (m2, 0), (m3, 0), (m4, -1), (m5, 0)):
+        for fn, p in ((m0, 0), (m1, 0), (m2, 0), (m3, 0), (m4, -1), (m5, 0), (m6, 0)):
             ov.register(fn, priority=p)
         return ov, LOG
 
@@ -124,6 +128,17 @@ def make_run_values(W, shape):
             trace.append(dict(call=name, got=got, on_a_fresh_function=first, documented=exp))
             # (a fresh function in the SAME process shares whatever the library remembers module-wide: the documented meaning decides)
             if got != first or got[0] != [exp]:
+                ok = False
+        # the SAME object, changed between two calls: each call answers for the value as it is now
+        d, lst = {}, ["x"]
+        script = [("{}", d, None, 4), ("{'a': 1}", d, lambda: d.__setitem__("a", 1), 6), ("{} again", d, lambda: d.clear(), 4),
+                  ("['x']", lst, None, 4), ("[1]", lst, lambda: lst.__setitem__(0, 1), 2), ("['y']", lst, lambda: lst.__setitem__(0, "y"), 4)]
+        for name, v, change, exp in script:
+            if change is not None:
+                change()
+            got = full_outcome(lambda: ov.dispatch(v), LOG)
+            trace.append(dict(call=name + " (same object, mutated)", got=got, documented=exp))
+            if got[0] != [exp]:
                 ok = False
         return Verdict(ok, (), dict(family="arguments told apart by a look into the value", trace=trace), ["values"], nontrivial=True)
 
